@@ -99,3 +99,30 @@ def cli_sig(o):
             m = seg[idx + len(": Error!\n\t"):]
             return ("fatal", m.rstrip("\n"))
     return ("other", o.get("exit"), core.sha(out))
+
+
+def report_blocks(o):
+    """The printed report split per file: [(basename, text of that file's block)] - what a user actually reads. For the JSON
+    format the block is the canonical dump of that file's entry without its path."""
+    import json as _json
+    out = []
+    for rep in o.get("reports") or []:
+        text = strip_ansi(rep.get("text") or "")
+        if rep.get("format", "").startswith("JSON"):
+            try:
+                doc = _json.loads(text)
+                for jf in doc["files"]:
+                    d = dict(jf)
+                    name = str(d.pop("path", "")).rsplit("/", 1)[-1]
+                    out.append((name, _json.dumps(d, sort_keys=True)))
+            except Exception:  # noqa
+                out.append(("?", text))
+            continue
+        cur = None
+        for ln in text.split("\n"):
+            if ln.endswith(": OK!") or ln.endswith(": Error!"):
+                cur = [ln.rsplit(": ", 1)[0], ln + "\n"]
+                out.append(cur)
+            elif cur is not None and ln:
+                cur[1] += ln + "\n"
+    return [(a, b) for a, b in out]
